@@ -398,6 +398,80 @@ def single_definition_rule(model, rep, rule: str, names, user_cls: str):
                        f"(e.g. {name}.ALL) is not the member the library tests for, so identifiers built with it match nothing they should", detail=f"duplicate:{name}")
 
 
+def handover_complete_rule(model, rep, rule: str):
+    """A circuit is nested when it is COMPLETE: add() stores a copy of the sub-circuit, so what is added to the sub-circuit after it was handed over never
+    reaches the parent (typestate: built -> handed over; no `add` after hand-over)."""
+    import ast as _ast
+    rep.rule(rule, "in the library's circuit builders no local sub-circuit receives further operations after it was handed to a parent with add(): add() nests a COPY, so "
+                   "later additions (detectors, barriers, coordinate shifts) stay behind in the local object")
+    n_fn, n_sub = 0, 0
+    for f in model.all_functions():
+        if "/library/" not in "/" + f.module.relpath:
+            continue
+        binds = {}      # local name -> lines where it is (re)bound to a fresh circuit
+        for st in _ast.walk(f.node):
+            if isinstance(st, (_ast.Assign, _ast.AnnAssign)) and st.value is not None and isinstance(st.value, _ast.Call) \
+                    and (_ast.unparse(st.value.func).split(".")[-1] in ("DeclarativeCircuit",) or _ast.unparse(st.value.func).startswith(("get_circuit_", "construct_"))):
+                for t in (st.targets if isinstance(st, _ast.Assign) else [st.target]):
+                    if isinstance(t, _ast.Name):
+                        binds.setdefault(t.id, []).append(st.lineno)
+        if not binds:
+            continue
+        n_fn += 1
+        adds = [c for c in _ast.walk(f.node) if isinstance(c, _ast.Call) and isinstance(c.func, _ast.Attribute) and c.func.attr in ("add", "add_sub_circuit", "add_declarative_circuit")
+                and isinstance(c.func.value, _ast.Name)]
+        for x, blines in binds.items():
+            handed = [c for c in adds if c.func.value.id != x and any(isinstance(a, _ast.Name) and a.id == x for a in list(c.args) + [k.value for k in c.keywords])]
+            grown = [c for c in adds if c.func.value.id == x]
+            if not handed:
+                continue
+            n_sub += 1
+            bad = []
+            for h in handed:
+                for g in grown:
+                    if g.lineno > h.lineno and not any(h.lineno < b <= g.lineno for b in blines):
+                        bad.append((h, g))
+            rep.check(not bad, rule, f"{f.qualname}[{x}]", f"{f.module.relpath}:{(bad[0][1] if bad else handed[0]).lineno}",
+                      found=(f"`{_ast.unparse(bad[0][1])[:70]}` (line {bad[0][1].lineno}) after `{_ast.unparse(bad[0][0])[:50]}` (line {bad[0][0].lineno})" if bad else
+                             f"handed over at line(s) {[h.lineno for h in handed]} after its last addition"), required="every addition before the hand-over",
+                      what=f"`{x}` is handed to its parent before it is complete: add() nests a copy, so `{_ast.unparse(bad[0][1])[:60] if bad else ''}` never reaches the circuit "
+                           "(detectors / barriers / shifts of that block are missing)", detail=f"late-add:{x}")
+    rep.floor("library builders with local sub-circuits", n_fn, 3)
+    rep.analysed[f"{rule} local sub-circuits handed over"] = n_sub
+
+
+def idle_wait_channel_rule(model, rep, rule: str):
+    """The idle Waits of the refocusing rounds hold ALL channels of their data qubit: what is added next on that qubit without a relation (the final read-out of the
+    simplified constructor, the first operation after flattening) finds them as predecessor whatever its own channel."""
+    import ast as _ast
+    from ..model import AnalysisError as _AE
+    rep.rule(rule, "a Wait without an explicit channel occupies QubitChannel.ALL (field default), and the Waits created by the dynamical-decoupling round builders of the repetition "
+                   "code pass no narrower channel: the implicit predecessor of what follows on that qubit is the round, on every channel")
+    W = model.cls("Wait")
+    fi = W.all_fields().get("qubit_channel")
+    if fi is None:
+        raise _AE("Wait.qubit_channel vanished")
+    from ..sym import Evaluator as _Ev, Frame as _Fr, show as _show
+    ev = _Ev(model)
+    dv = ev.expr(fi.default, _Fr(None, fi.owner.module, {}, fi.owner, 0)) if fi.default is not None else None
+    rep.check(dv == ("enum", "QubitChannel", "ALL"), rule, "Wait.qubit_channel[default]", W.loc, found=_show(dv) if dv is not None else "no default", required="QubitChannel.ALL",
+              what=f"a plain Wait(q) occupies {_show(dv) if dv is not None else '?'} only: an operation on another channel of q added next does not wait for it", detail="wait-default")
+    n = 0
+    for f in model.all_functions():
+        if "dynamical_decoupling" not in f.name or "repetition_code" not in f.module.relpath:
+            continue
+        for c in _ast.walk(f.node):
+            if isinstance(c, _ast.Call) and isinstance(c.func, _ast.Name) and c.func.id == "Wait":
+                n += 1
+                kw = {k.arg: k.value for k in c.keywords if k.arg}
+                ch = kw.get("qubit_channel")
+                ok = ch is None or _ast.unparse(ch) in ("QubitChannel.ALL",)
+                rep.check(ok, rule, f"{f.qualname}[Wait channel]", f"{f.module.relpath}:{c.lineno}", found=_ast.unparse(c)[:100], required="no qubit_channel argument (ALL)",
+                          what=f"an idle Wait of the refocusing round occupies only {_ast.unparse(ch) if ch is not None else ''}: the data qubit's other channels look free, so the next "
+                               "operation on them is scheduled without regard to the round", detail="wait-channel")
+    rep.floor("Wait constructions in the dynamical-decoupling round builders", n, 2)
+
+
 def order_kept_rule(model, rep, rule: str, cls_name: str, field_name: str, text: str, what: str):
     """A sequence whose ORDER carries meaning (rows of a drawing, the chain of index kernels) is stored as it was built: no method of the class re-orders or
     de-duplicates the stored field (``self.F = sorted(.. self.F ..)`` / ``set`` / ``reversed`` / ``self.F.sort()`` / ``.reverse()``)."""
@@ -653,6 +727,33 @@ def depth_budget_rule(model, rep, rule: str):
               found=f"the walk gives up after {budget if budget != INF else 'no bound of'} layers", required=f">= {REFERENCE_DEPTH_BUDGET} layers (reference tree)",
               what=f"the layer walk behind every node iterator stops after {budget} layers (the reference tree walks {REFERENCE_DEPTH_BUDGET}): in a deeper graph the operations "
                    f"beyond it silently vanish from listings, durations, indices and exports", detail="depth-budget")
+
+
+def counter_incremented(model, post, cname: str, counter: str, depth: int = 0) -> bool:
+    """``post`` (a __post_init__) advances ``Cls.counter`` exactly once, unconditionally: ``Cls.n += k`` / ``Cls.n = Cls.n + k`` at the top level of its body, or a
+    top-level call of a function of the package (module function, own method) that does so"""
+    import ast as _ast
+    from ..model import FunctionInfo as _FI
+    tgt = f"{cname}.{counter}"
+    n = 0
+    for st in post.node.body:
+        if isinstance(st, _ast.AugAssign) and isinstance(st.op, _ast.Add) and _ast.unparse(st.target) == tgt and isinstance(st.value, _ast.Constant) \
+                and isinstance(st.value.value, int) and st.value.value > 0:
+            n += 1
+        elif isinstance(st, _ast.Assign) and len(st.targets) == 1 and _ast.unparse(st.targets[0]) == tgt and isinstance(st.value, _ast.BinOp) and isinstance(st.value.op, _ast.Add):
+            a_, b_ = st.value.left, st.value.right
+            if any(_ast.unparse(x_) == tgt and isinstance(y_, _ast.Constant) and isinstance(y_.value, int) and y_.value > 0 for x_, y_ in ((a_, b_), (b_, a_))):
+                n += 1
+        elif isinstance(st, _ast.Expr) and isinstance(st.value, _ast.Call) and depth < 2:
+            f_ = st.value.func
+            callee = None
+            if isinstance(f_, _ast.Name):
+                callee = model.lookup_symbol(post.module, f_.id)
+            elif isinstance(f_, _ast.Attribute) and isinstance(f_.value, _ast.Name) and post.cls is not None and f_.value.id in (post.self_name, post.cls.name, "cls"):
+                callee = post.cls.resolve(f_.attr)
+            if isinstance(callee, _FI) and counter_incremented(model, callee, cname, counter, depth + 1):
+                n += 1
+    return n == 1
 
 
 def factory_counter(model, owner_module, factory):
